@@ -165,6 +165,7 @@ func Load(dir string, deep bool, overlay map[string][]byte) (*Program, error) {
 		p.normalized += normalizeConstructions(pk)
 	}
 	resolveNames(p.Pkgs)
+	buildDevirt(p.Pkgs)
 	for _, pk := range p.Pkgs {
 		p.indexPkg(pk)
 	}
@@ -395,6 +396,24 @@ func (p *Program) FuncByName(name string) *Func {
 	for _, f := range p.All {
 		if f.Name == name {
 			return f
+		}
+	}
+	// the same method with the other kind of receiver (pkg.T.M <-> pkg.(*T).M): changing the receiver kind of
+	// a type that carries no lock and no container does not make it another function
+	alt := ""
+	if i := strings.Index(name, ".(*"); i >= 0 {
+		if j := strings.Index(name[i:], ")."); j > 0 {
+			alt = name[:i+1] + name[i+3:i+j] + name[i+j+1:]
+		}
+	} else if parts := strings.Split(name, "."); len(parts) >= 3 {
+		n := len(parts)
+		alt = strings.Join(parts[:n-2], ".") + ".(*" + parts[n-2] + ")." + parts[n-1]
+	}
+	if alt != "" {
+		for _, f := range p.All {
+			if f.Name == alt {
+				return f
+			}
 		}
 	}
 	return nil
